@@ -319,6 +319,22 @@ ORACLES = {"C08": oracle_c08, "C19": oracle_c19}
 # ----------------------------------------------------------------------------------
 # run / replay / minimise
 # ----------------------------------------------------------------------------------
+_STUB_NAMES = ("SimProcess", "SimQueue", "SimContext", "SimSentinel", "SimDatetime", "_FakePsutil")
+
+
+def _stub_gap(out):
+    """An AttributeError/TypeError/NotImplementedError about one of the stub classes, in the
+    parent or in a simulated child: the code asked the stub for something it does not model."""
+    cands = [out.exc] + list((getattr(out, "errors", None) or {}).values())
+    for e in cands:
+        if e is None:
+            continue
+        txt = e if isinstance(e, str) else f"{type(e).__name__}: {e}"
+        if any(k in txt for k in ("AttributeError", "NotImplementedError", "TypeError")) and any(n in txt for n in _STUB_NAMES):
+            return txt[:300]
+    return None
+
+
 def execute(prop, desc, rng=None):
     """returns (violation|None, outcome-summary)"""
     out = simulate(desc, rng)
@@ -331,6 +347,12 @@ def execute(prop, desc, rng=None):
             "children_failed": len(getattr(out, "children_failed", {}) or {}),
             "queue_depth": max((q.max_depth for q in out.sched.queues.values() if q.maxsize), default=0)}
     v = None
+    gap = _stub_gap(out)
+    if gap:
+        out.result = None
+        out.sched = None
+        raise HarnessError("the tree under test uses a multiprocessing facility that the process stub does not model "
+                           f"(no verdict possible, this is not a violation): {gap}")
     try:
         ORACLES[prop](desc, out)
     except Violation as e:
